@@ -29,9 +29,21 @@ import (
 type nopLogger struct{}
 
 func (nopLogger) Trace(string, ...interface{}) {}
-func (nopLogger) Debug(string, ...interface{}) {}
-func (nopLogger) Info(string, ...interface{})  {}
-func (nopLogger) Warn(string, ...interface{})  {}
+func (nopLogger) Debug(m string, a ...interface{}) {
+	if verbose {
+		vrt.Logf("debug "+m, a...)
+	}
+}
+func (nopLogger) Info(m string, a ...interface{}) {
+	if verbose {
+		vrt.Logf("info "+m, a...)
+	}
+}
+func (nopLogger) Warn(m string, a ...interface{}) {
+	if verbose {
+		vrt.Logf("warn "+m, a...)
+	}
+}
 func (nopLogger) Error(m string, a ...interface{}) {
 	if verbose {
 		vrt.Logf("ERRORLOG "+m, a...)
@@ -193,6 +205,7 @@ type Env struct {
 	StopCh  chan struct{}
 	CollIDs map[uint32]string
 	RecMeta *RecMeta
+	Col     prometheus.Collector // the metric collector, created on the first scrape
 }
 
 // SaveCall is one call of Metadata.Save as seen at the backend interface.
